@@ -135,6 +135,33 @@ struct fwd_sink {
     }
 };
 
+// A8 use-after-move rule: a forwarded callable invoked twice; a move out of a reference to storage owned elsewhere
+struct fwd_twice {
+    std::vector<std::string> a, b;
+    template<class F>
+    void twice(F&& f)
+    {
+        std::forward<F>(f)(a);
+        std::forward<F>(f)(b);
+    }
+    template<class F>
+    void once(F&& f)
+    {
+        f(a);
+        std::forward<F>(f)(b);
+    }
+    std::string steal(std::size_t i)
+    {
+        auto& slot = a.at(i);
+        return std::string(std::move(slot));
+    }
+    std::string copy_then_move(std::size_t i)
+    {
+        auto slot = a.at(i);
+        return std::string(std::move(slot));
+    }
+};
+
 // A8 uninitialised-local rule
 struct uninit_local {
     static int sink(const int& v) { return v; }
